@@ -18,12 +18,13 @@ class RefRun:
     trace: list of statements, each {'reads': [(name, pos)], 'writes': [(name, pos)], 'exc': type or None}
     """
 
-    def __init__(self, prog, data, span_labels=None):
+    def __init__(self, prog, data, span_labels=None, order=None):
         self.prog = prog
         self.data = data
         self.span_labels = span_labels
         self.n = len(next(iter(data.values()))) if data else 0
-        self.src = [gen.render_eq(e, 'ref') for e in gen.execution_order(prog)]
+        # `order`: explicit statement order (for symbol lists re-ordered by the caller); default: symbol-list order of parse_model
+        self.src = [gen.render_eq(e, 'ref') for e in (order if order is not None else gen.execution_order(prog))]
         self.code = [compile(x, '<ref>', 'eval') for x in self.src]
 
     def evaluate(self, p, stop_on_exception=True):
